@@ -3,7 +3,7 @@
    the theorems below are the part of the argument that lives in the slot allocator, for EVERY failure pattern. *)
 From Coq Require Import NArith List Bool.
 From AJ Require Import Model.Base Model.Pool Proofs.PoolProofs Model.Collection Proofs.CollProofs.
-From AJ Require Import Model.CopyBudget Proofs.CopyBudgetProofs.
+From AJ Require Import Model.CopyBudget Proofs.CopyBudgetProofs Proofs.ReadBudgetProofs.
 Local Open Scope N_scope.
 
 (* whatever the allocator answers, at whatever calls, the allocator's invariant holds: ids valid, live slots
@@ -106,3 +106,47 @@ Theorem C05_failed_copy_is_strictly_smaller : forall v b,
   (slots (fst (fst (copy_budget v b))) < slots v)%nat /\ fst (fst (copy_budget v b)) <> v.
 Proof. exact copy_fail_strict. Qed.
 Print Assumptions C05_failed_copy_is_strictly_smaller.
+
+(* ---- reading a document (deserializeJson / deserializeMsgPack) when only b slots can be had: read_budget, compared with
+   the library's two readers for budgets 0, C, 2C, ... (C = pool capacity; pool blocks refused by their size) ---- *)
+
+(* Ok exactly when the slots suffice — then the document is the whole value — otherwise NoMemory *)
+Theorem C05_read_ok_iff_enough_slots : forall v b,
+  (snd (read_budget v b) = true <-> (slots v <= b)%nat) /\
+  ((slots v <= b)%nat -> read_budget v b = (v, (b - slots v)%nat, true)).
+Proof. intros v b. split; [apply read_ok_iff | apply read_enough]. Qed.
+Print Assumptions C05_read_ok_iff_enough_slots.
+
+(* after NoMemory the document is a truncation of the value in reading order: whole elements / members, the last one
+   possibly itself a truncation; same keys, every member with a value; strictly smaller than the whole *)
+Theorem C05_nomemory_leaves_a_truncation : forall v b, rtrunc (fst (fst (read_budget v b))) v.
+Proof. exact read_rtrunc. Qed.
+Print Assumptions C05_nomemory_leaves_a_truncation.
+
+Theorem C05_nomemory_is_strictly_smaller : forall v b,
+  snd (read_budget v b) = false ->
+  (slots (fst (fst (read_budget v b))) < slots v)%nat /\ fst (fst (read_budget v b)) <> v.
+Proof. exact read_fail_strict. Qed.
+Print Assumptions C05_nomemory_is_strictly_smaller.
+
+Theorem C05_read_loses_at_most_one_slot : forall v b,
+  let '(p, r, ok) := read_budget v b in
+  (r + slots p <= b)%nat /\ (b <= r + slots p + 1)%nat /\ (ok = true -> (r + slots p)%nat = b).
+Proof. exact read_conserve. Qed.
+Print Assumptions C05_read_loses_at_most_one_slot.
+
+Theorem C05_more_slots_only_extend_what_is_read : forall v b b', (b <= b')%nat ->
+  rtrunc (fst (fst (read_budget v b))) (fst (fst (read_budget v b'))).
+Proof. exact read_mono. Qed.
+Print Assumptions C05_more_slots_only_extend_what_is_read.
+
+(* copying and reading succeed for the same budgets; on failure the copy keeps no more than the reader (it rolls
+   half-copied array elements back, the reader keeps what it read) *)
+Theorem C05_copy_and_read_agree_on_success : forall v b, snd (copy_budget v b) = snd (read_budget v b).
+Proof. exact copy_read_ok. Qed.
+Print Assumptions C05_copy_and_read_agree_on_success.
+
+Theorem C05_copy_keeps_no_more_than_read : forall v b,
+  rtrunc (fst (fst (copy_budget v b))) (fst (fst (read_budget v b))).
+Proof. exact copy_rtrunc_read. Qed.
+Print Assumptions C05_copy_keeps_no_more_than_read.
